@@ -10,3 +10,6 @@ def run(ctx):
         cases = ctx.rng.sample(cases, min(len(cases), 150))
     gillcheck.law_check(ctx, drv, True, cases, "Gillespie_SIS")
     fastsis.correspondence(ctx, drv, ctx.scale(600, 3000))
+    if any(st.startswith("fast_SIS") for st, _ in ctx.disagreements) and not ctx.violations:
+        # correspondence broke without a property-level failure so far: search for a concrete failing input
+        fastsis.law_search(ctx)
